@@ -176,6 +176,10 @@ func c07run(r *kernel.Run, seed uint64) {
 				r.Violate("lifecycle", "contact-group-lookup", "%s on %s: GetContactFromGroupPK does not map the contact group of contact %d to its record", where, n.name, ci)
 				return false
 			}
+			if rec := c04foldContacts(events)[ci]; rec != nil && (!bytes.Equal(sc.PublicRendezvousSeed, rec.seed) || !bytes.Equal(sc.Metadata, rec.meta)) {
+				r.Violate("lifecycle", "contact-group-lookup-stale", "%s on %s: GetContactFromGroupPK returns seed %x / metadata %q for contact %d, the reference record has seed %x / metadata %q", where, n.name, sc.PublicRendezvousSeed, sc.Metadata, ci, rec.seed, rec.meta)
+				return false
+			}
 		}
 		return true
 	}
@@ -199,15 +203,22 @@ func c07run(r *kernel.Run, seed uint64) {
 		}
 		cur := c07modelState(events, ci)
 		// inputs
-		sc := &protocoltypes.ShareableContact{Pk: c.raw, PublicRendezvousSeed: c.seed, Metadata: c.meta}
+		// every carrying event has its own seed and metadata (sometimes no metadata): backfill and overwrite are observable
+		opSeed := kernel.DetBytes(uint64(op)*131+uint64(ci)+7, 32)
+		opMeta := []byte(fmt.Sprintf("meta-%d-%d", ci, op))
+		if s.r.Choose(4) == 3 {
+			opMeta = nil
+			r.Probe("carrying_event_without_metadata")
+		}
+		sc := &protocoltypes.ShareableContact{Pk: c.raw, PublicRendezvousSeed: opSeed, Metadata: opMeta}
 		pk := c.pk
 		refusedByInput := false
 		switch variant {
 		case "seed-short":
-			sc.PublicRendezvousSeed = c.seed[:31]
+			sc.PublicRendezvousSeed = opSeed[:31]
 			refusedByInput = k == "enq" || k == "recv"
 		case "seed-long":
-			sc.PublicRendezvousSeed = append(append([]byte{}, c.seed...), 1)
+			sc.PublicRendezvousSeed = append(append([]byte{}, opSeed...), 1)
 			refusedByInput = k == "enq" || k == "recv"
 		case "seed-missing":
 			sc.PublicRendezvousSeed = nil
